@@ -516,6 +516,10 @@ YR_API int yr_scanner_scan_mem_blocks(
 
     yr_stopwatch_start(&scanner->stopwatch);
 
+    // This is a new scan, the entry point found in a previous scan with this
+    // scanner (if any) doesn't apply to the data being scanned now.
+    scanner->entry_point = YR_UNDEFINED;
+
     block = iterator->first(iterator);
   }
 
